@@ -100,6 +100,7 @@ type wisInstance struct {
 func bubbleInit() {
 	quietLogs()
 	simhook.SetSpinWait(true)
+	simhook.SetHook(nil)
 	model.VerifResetGlobals()
 	// the periodic cache-index flush is offered to the simulator as an explicit action instead
 	features.XDSCacheIndexClearInterval = 1000 * time.Hour
@@ -161,6 +162,39 @@ type wis struct {
 	ctx     context.Context
 	cancel  context.CancelFunc
 	addrSeq int
+	sched   *engine.Sched // yield-hook scheduler (nil = hooks pass through)
+}
+
+// enableHooks routes the repository's simhook yield points of the named kinds to this driver's scheduler.
+// Hook keys name code locations and objects, not instances, so oracle replicas run in pass-through mode.
+func (w *wis) enableHooks(points ...string) {
+	w.sched = engine.NewSched()
+	on := map[string]bool{}
+	for _, p := range points {
+		on[p] = true
+	}
+	w.sched.Filter = func(point, key string) bool { return on[point] }
+	simhook.SetHook(w.sched.Yield)
+}
+
+func (w *wis) parkedHooks() []string {
+	if w.sched == nil {
+		return nil
+	}
+	return w.sched.Parked()
+}
+
+func (w *wis) releaseHook(k string) {
+	w.sched.Release(k)
+	synctest.Wait()
+}
+
+// drainHooks releases everything parked and makes later yields return at once.
+func (w *wis) drainHooks() {
+	if w.sched != nil {
+		w.sched.Drain()
+		synctest.Wait()
+	}
 }
 
 func newWis(t *testing.T, r *engine.Run, inst *wisInstance) *wis {
@@ -454,6 +488,9 @@ func cloneNode(n *core.Node) *core.Node {
 // freshViews assembles a new instance from configs/objects alone, connects fresh clients with the
 // same identities and returns what they hold at quiescence.
 func (w *wis) freshViews(o wisOpts, like []*xdsClient) (map[string]map[string]map[string][]byte, bool) {
+	if w.sched != nil {
+		w.sched.SetPassthrough(true)
+	}
 	inst := newWisInstance(w.t, "fresh", o)
 	defer func() {
 		inst.Close()
